@@ -751,6 +751,7 @@ class Report:
         self.functions = set()
         self.notes = []
         self.rules = {}
+        self.held = []              # (rule id, function, what) of every instance that held (import_rules filters on it)
 
     def rule(self, rid, text):
         self.rules[rid] = text
@@ -762,6 +763,7 @@ class Report:
         self.instances[rid] += 1
         if isinstance(fn, Fn):
             self.functions.add(fn.full)
+        self.held.append((rid, fn.qname if isinstance(fn, Fn) else str(fn), what))
         if sample or len([s for s in self.samples if s.get("rule") == rid]) < 2:
             self.samples.append({"rule": rid, "function": fn.qname if isinstance(fn, Fn) else str(fn),
                                  "loc": fn.loc if isinstance(fn, Fn) else "", "established": what})
